@@ -27,18 +27,15 @@ const F_WIDTH: [&str; 4] = ["", "1", "8", "20"];
 const F_PREC: [&str; 3] = ["", ".0", ".3"];
 const F_TY: [&str; 3] = ["?", "x?", "X?"];
 
-fn spec_of(row: &[usize; 7]) -> (String, bool) {
+fn spec_of(row: &[usize; 7]) -> String {
     let parts = [F_FA[row[0]], F_SIGN[row[1]], F_ALT[row[2]], F_ZERO[row[3]], F_WIDTH[row[4]], F_PREC[row[5]], F_TY[row[6]]];
-    let s = format!("{{:{}}}", parts.concat());
-    // "pretty + at least one more flag": the input class of the DebugTuple defect model
-    let pf = row[2] == 1 && (row[0] != 0 || row[1] != 0 || row[3] != 0 || row[4] != 0 || row[5] != 0 || row[6] != 0);
-    (s, pf)
+    format!("{{:{}}}", parts.concat())
 }
 
 /// The grid of outer specs: an all-pairs covering array over the seven spec components (greedy, deterministic),
 /// the full product of the components that interact inside the builders (`#` x type x zero x width x precision),
 /// the configurations named in DESIGN.md and 40 pseudo-random rows (fixed LCG: the grid is a constant table).
-pub fn spec_grid() -> Vec<(String, bool)> {
+pub fn spec_grid() -> Vec<String> {
     let sizes = [F_FA.len(), F_SIGN.len(), F_ALT.len(), F_ZERO.len(), F_WIDTH.len(), F_PREC.len(), F_TY.len()];
     let mut rows: Vec<[usize; 7]> = vec![];
     // explicit ones first
@@ -133,7 +130,7 @@ pub fn spec_grid() -> Vec<(String, bool)> {
         rows.push(row);
     }
     let mut seen = std::collections::HashSet::new();
-    rows.iter().map(spec_of).filter(|(s, _)| seen.insert(s.clone())).collect()
+    rows.iter().map(spec_of).filter(|s| seen.insert(s.clone())).collect()
 }
 
 pub const NESTS: [&str; 11] = [
@@ -196,11 +193,10 @@ pub mod __wmd {
 }
 "#,
     );
-    let _ = writeln!(s, "pub const __SPECS: [&str; {}] = [{}];", grid.len(), grid.iter().map(|(g, _)| format!("{g:?}")).collect::<Vec<_>>().join(", "));
-    let _ = writeln!(s, "pub const __SPEC_PF: [bool; {}] = [{}];", grid.len(), grid.iter().map(|(_, p)| p.to_string()).collect::<Vec<_>>().join(", "));
+    let _ = writeln!(s, "pub const __SPECS: [&str; {}] = [{}];", grid.len(), grid.iter().map(|g| format!("{g:?}")).collect::<Vec<_>>().join(", "));
     let _ = writeln!(s, "pub const __NESTS: [&str; {}] = [{}];", NESTS.len(), NESTS.iter().map(|g| format!("{g:?}")).collect::<Vec<_>>().join(", "));
     s.push_str("pub fn __specs(v: &dyn std::fmt::Debug, out: &mut Vec<String>) {\n");
-    for (g, _) in &grid {
+    for g in &grid {
         let _ = writeln!(s, "    out.push(format!({g:?}, v));");
     }
     s.push_str("}\n");
@@ -1008,7 +1004,7 @@ enum ArgForm {
     Expr(String),
 }
 
-fn gen_variant(d: &mut Dice, depth: usize, cx: &mut Cx, g: &Gen, name: String, kind: VKind, nf: usize, is_enum: bool) -> Variant {
+fn gen_variant(d: &mut Dice, depth: usize, cx: &mut Cx, g: &Gen, name: String, kind: VKind, nf: usize) -> Variant {
     let mut v = Variant { name, kind, fields: vec![] };
     let mut used: Vec<&str> = vec![];
     for _ in 0..nf {
@@ -1121,7 +1117,7 @@ fn gen_type(d: &mut Dice, depth: usize, cx: &mut Cx) -> usize {
                 3 => (VKind::Tuple, 0),
                 _ => (VKind::Named, 0),
             };
-            let v = gen_variant(d, depth, cx, &gen, vn.to_string(), kind, nf, true);
+            let v = gen_variant(d, depth, cx, &gen, vn.to_string(), kind, nf);
             variants.push(v);
         }
         if !gen.is_empty() {
@@ -1143,7 +1139,7 @@ fn gen_type(d: &mut Dice, depth: usize, cx: &mut Cx) -> usize {
             3 => (VKind::Tuple, d.range(1, 4)),
             _ => (VKind::Named, d.range(1, 4)),
         };
-        let mut v = gen_variant(d, depth, cx, &gen, String::new(), kind, nf, false);
+        let mut v = gen_variant(d, depth, cx, &gen, String::new(), kind, nf);
         use_generics(d, &gen, &mut v);
         variants.push(v);
     }
@@ -1258,7 +1254,7 @@ fn build(d: &mut Dice) -> GenCase {
     labels.push(if any_attr { "with_debug_attributes".into() } else { "attribute_less".into() });
     let has_fields = cx.types.iter().any(|t| t.variants.iter().any(|v| !v.fields.is_empty()));
     let mut c = GenCase::new(body);
-    c.control = if std::env::var("C06_NOCONTROL").is_ok() { None } else { Some(control) };
+    c.control = Some(control);
     // every case is evaluated under the whole grid (flags, nestings); the trivial ones are the field-less,
     // attribute-less, plainly named types for which all configurations print just the name
     c.nontrivial = has_fields || labels.iter().any(|l| l == "raw_identifier");
@@ -1337,6 +1333,8 @@ pub fn prop() -> DiceProp {
         assumptions: vec![
             "std's #[derive(Debug)] and std's DebugStruct/DebugTuple builders (incl. finish_non_exhaustive) of the installed stable toolchain are the reference".into(),
             "a hand-written impl over std's builders is what std's derive would produce for the non-skipped fields (self-checked in every case: the hand-written twin with all defect models off must equal the reference twin)".into(),
+            "excluded by construction because the expansion does not compile there for reasons that belong to other properties (C01/C04/C15): a bare `T` field next to a `&'a T` field of the same parameter; a field format that mentions another field of type-parameter type, or a raw-named field of type-parameter type as argument (no bound inferred); a field whose name equals a tuple/unit struct in scope".into(),
+            "`{:p}` in field formats only in the documented forms `{field:p}` / `*field` (the address stored in the field), so that twin values print the same address".into(),
         ],
         floors: vec![
             ("kind=enum".into(), 0.2),
